@@ -100,58 +100,121 @@ func sweepHlogHandlers(p *Prog, pc *PropConfig, tags string, r *checkResult) {
 			}
 		}
 		checkNoSharedStore(fn, 0)
-		for _, b := range fn.Blocks {
-			for _, in := range b.Instrs {
-				call, ok := in.(ssa.CallInstruction)
-				if !ok {
-					continue
-				}
-				cc := call.Common()
-				f := cc.StaticCallee()
-				if f == nil || f.Name() != "UpdateContext" || len(cc.Args) == 0 {
-					continue
-				}
-				nChecked++
-				// receiver must be zerolog.Ctx(r.Context()) with r this closure's request
-				// a context of this request: r.Context(), or one derived from it with CtxWithID
-				// (context.WithValue keeps the logger stored by NewHandler)
-				var ownCtx func(v ssa.Value, depth int) bool
-				ownCtx = func(v ssa.Value, depth int) bool {
-					if depth > 4 {
-						return false
-					}
-					switch x := v.(type) {
-					case *ssa.Call:
-						h := x.Call.StaticCallee()
-						if h == nil {
+		ownUpdates := 0
+		// scanUpdates checks every UpdateContext call of f (and of the closures f creates, e.g. deferred
+		// ones that capture the request): its receiver must be zerolog.Ctx(ctx) for a context of this request
+		var scanUpdates func(f *ssa.Function, isReqF func(ssa.Value) bool, depth int)
+		scanUpdates = func(f *ssa.Function, isReqF func(ssa.Value) bool, depth int) {
+			for _, b := range f.Blocks {
+				for _, in := range b.Instrs {
+					if mc, ok := in.(*ssa.MakeClosure); ok && depth < 2 {
+						g := mc.Fn.(*ssa.Function)
+						inner := func(v ssa.Value) bool {
+							// a captured request: the free variable itself, or a load through a captured local that only holds r
+							if fvv, ok := v.(*ssa.FreeVar); ok {
+								for k, x := range g.FreeVars {
+									if x == fvv && k < len(mc.Bindings) {
+										return isReqF(mc.Bindings[k])
+									}
+								}
+							}
+							if u, ok := v.(*ssa.UnOp); ok {
+								if fvv, ok := u.X.(*ssa.FreeVar); ok {
+									for k, x := range g.FreeVars {
+										if x == fvv && k < len(mc.Bindings) {
+											if al, ok := mc.Bindings[k].(*ssa.Alloc); ok {
+												// the local must only ever hold the request
+												okAll, stores := true, 0
+												for _, bb := range f.Blocks {
+													for _, ii := range bb.Instrs {
+														if st, ok := ii.(*ssa.Store); ok && st.Addr == ssa.Value(al) {
+															stores++
+															if !isReqF(st.Val) {
+																okAll = false
+															}
+														}
+													}
+												}
+												return okAll && stores > 0
+											}
+										}
+									}
+								}
+							}
 							return false
 						}
-						if h.Name() == "Context" && len(x.Call.Args) == 1 && isReq(x.Call.Args[0]) {
-							return true
+						scanUpdates(g, inner, depth+1)
+						continue
+					}
+					call, ok := in.(ssa.CallInstruction)
+					if !ok {
+						continue
+					}
+					cc := call.Common()
+					h0 := cc.StaticCallee()
+					if h0 == nil || h0.Name() != "UpdateContext" || len(cc.Args) == 0 {
+						continue
+					}
+					nChecked++
+					var ownCtx func(v ssa.Value, depth int) bool
+					ownCtx = func(v ssa.Value, depth int) bool {
+						if depth > 4 {
+							return false
 						}
-						if h.Name() == "CtxWithID" && h.Pkg == fn.Package() && len(x.Call.Args) == 2 {
-							return ownCtx(x.Call.Args[0], depth+1)
-						}
-					case *ssa.Phi:
-						for _, e := range x.Edges {
-							if !ownCtx(e, depth+1) {
+						switch x := v.(type) {
+						case *ssa.Call:
+							h := x.Call.StaticCallee()
+							if h == nil {
 								return false
 							}
+							if h.Name() == "Context" && len(x.Call.Args) == 1 && isReqF(x.Call.Args[0]) {
+								return true
+							}
+							if h.Name() == "CtxWithID" && h.Pkg == fn.Package() && len(x.Call.Args) == 2 {
+								return ownCtx(x.Call.Args[0], depth+1)
+							}
+						case *ssa.Phi:
+							for _, e := range x.Edges {
+								if !ownCtx(e, depth+1) {
+									return false
+								}
+							}
+							return true
 						}
-						return true
+						return false
 					}
-					return false
-				}
-				ok2 := false
-				if c1, isCall := cc.Args[0].(*ssa.Call); isCall {
-					if g := c1.Call.StaticCallee(); g != nil && g.Name() == "Ctx" && g.Pkg != nil && g.Pkg.Pkg.Path() == p.ModPath && len(c1.Call.Args) == 1 {
-						ok2 = ownCtx(c1.Call.Args[0], 0)
+					ok2 := false
+					if c1, isCall := cc.Args[0].(*ssa.Call); isCall {
+						if g := c1.Call.StaticCallee(); g != nil && g.Name() == "Ctx" && g.Pkg != nil && g.Pkg.Pkg.Path() == p.ModPath && len(c1.Call.Args) == 1 {
+							ok2 = ownCtx(c1.Call.Args[0], 0)
+						}
 					}
-				}
-				if !ok2 {
-					fv.oblige("isolation", "logger", nil, in.Pos(), "false", "the only logger a field handler updates is zerolog.Ctx(r.Context()) of its own request")
+					if !ok2 {
+						fv.oblige("isolation", "logger", nil, in.Pos(), "false", "the only logger a field handler updates is zerolog.Ctx(r.Context()) of its own request")
+					} else {
+						ownUpdates++
+					}
 				}
 			}
+		}
+		scanUpdates(fn, isReq, 0)
+		// a field handler (its constructor takes a fieldKey) puts its value on the request's own logger, in
+		// place, so that every event of that request -- also the ones logged further out, e.g. by
+		// AccessHandler -- carries it
+		isField := false
+		for q := fn.Parent(); q != nil; q = q.Parent() {
+			for _, prm := range q.Params {
+				if prm.Name() == "fieldKey" {
+					isField = true
+				}
+			}
+		}
+		if isField {
+			goal := "true"
+			if ownUpdates == 0 {
+				goal = "false"
+			}
+			fv.oblige("fieldinit", "field-on-request-logger", nil, fn.Pos(), goal, fmt.Sprintf("the field handler updates zerolog.Ctx(r.Context()) of its own request in place (%d UpdateContext calls found): every event of the request carries the field", ownUpdates))
 		}
 		fv.oblige("fieldinit", "isolation-checked", nil, fn.Pos(), "true", fmt.Sprintf("%d stores / UpdateContext calls checked", nChecked))
 		r.fvs = append(r.fvs, fv)
